@@ -64,3 +64,15 @@ void h_drive(void) { cv_i32 x = nondet_unsigned(); drive_reset(); cv_i32 r = dri
 #ifdef DRV_dbg1
 void h_drive(void) { cv_i32 x = nondet_unsigned(); drive_reset(); cv_i32 r = drive_dbg1(x); __CPROVER_assert(r == 1, "DBG pending after start"); __CPROVER_assert(0, "SENTINEL reachable: scenario ran to its end"); }
 #endif
+#ifdef DRV_dbg2
+void h_drive(void) { cv_i32 x = nondet_unsigned(); drive_reset(); cv_i32 r = drive_dbg2(x); __CPROVER_assert(r == 1, "DBG pending after start"); __CPROVER_assert(0, "SENTINEL reachable: scenario ran to its end"); }
+#endif
+#ifdef DRV_dbg3
+void h_drive(void) { cv_i32 x = nondet_unsigned(); drive_reset(); cv_i32 r = drive_dbg3(x); __CPROVER_assert(r == 1, "DBG suspended"); __CPROVER_assert(0, "SENTINEL reachable: scenario ran to its end"); }
+#endif
+#ifdef DRV_dbg4
+void h_drive(void) { cv_i32 x = nondet_unsigned(); drive_reset(); cv_i32 r = drive_dbg4(x); __CPROVER_assert(r == 1, "DBG suspended"); __CPROVER_assert(0, "SENTINEL reachable: scenario ran to its end"); }
+#endif
+#ifdef DRV_dbg5
+void h_drive(void) { cv_i32 x = nondet_unsigned(); drive_reset(); cv_i32 r = drive_dbg5(x); __CPROVER_assert(r == 1, "DBG suspended"); __CPROVER_assert(0, "SENTINEL reachable: scenario ran to its end"); }
+#endif
